@@ -37,21 +37,15 @@ func (i *instanceMethodStrategy) evaluate(m *MethodEvaluator) error {
 				Class: m.ctx.GetClass(),
 			}
 
-		methodClassNodes := base.ClassInheritanceMap[callerNode]
-
-		var isContained bool
-
-		if methodT.DefinedFrame == m.ctx.GetFrame() && methodT.DefinedClass == m.ctx.GetClass() {
-			isContained = true
-		}
-
-		if !isContained {
-			for _, node := range methodClassNodes {
-				if node.Frame == methodT.DefinedFrame && node.Class == methodT.DefinedClass {
-					isContained = true
-				}
+		definedNode :=
+			base.ClassNode{
+				Frame: methodT.DefinedFrame,
+				Class: methodT.DefinedClass,
 			}
-		}
+
+		isContained :=
+			callerNode == definedNode ||
+				isAncestorNode(callerNode, definedNode, map[base.ClassNode]bool{})
 
 		if !isContained {
 			return fmt.Errorf("%s.%s is protect method", methodT.DefinedClass, methodT.GetMethodName())
@@ -59,6 +53,27 @@ func (i *instanceMethodStrategy) evaluate(m *MethodEvaluator) error {
 	}
 
 	return evaluateNoUnionInstanceMethod(m, class, methodT)
+}
+
+func isAncestorNode(
+	node base.ClassNode,
+	target base.ClassNode,
+	seen map[base.ClassNode]bool,
+) bool {
+
+	if seen[node] {
+		return false
+	}
+
+	seen[node] = true
+
+	for _, parent := range base.ClassInheritanceMap[node] {
+		if parent == target || isAncestorNode(parent, target, seen) {
+			return true
+		}
+	}
+
+	return false
 }
 
 func (i *instanceMethodStrategy) isTransformIdentifier(method string) bool {
